@@ -25,10 +25,11 @@ pub mod vxp {
         pub mname: Seq<char>,       // manifest file name
         pub adopt: bool,            // options.adopt of the current Work
         pub mstate: int,            // 0 manifest not looked up, 1 unknown to the graph, 2 known (pending), 3 wanted, 4 brought up to date
+        pub nman: nat,              // C18: number of files the latest manifest generation names (State::manifest_files); higher ids are log-only
     }
     pub open spec fn ps0() -> PS {
         PS { loaded: 0, has_work: false, stale: false, failed: false, ran_ok: false, total: 0, valid: Set::empty(), persist: Set::empty(),
-             wanted: Set::empty(), want_all: false, all_excl: None, defaults: Seq::empty(), resolved: Map::empty(), mname: Seq::empty(), adopt: false, mstate: 0 }
+             wanted: Set::empty(), want_all: false, all_excl: None, defaults: Seq::empty(), resolved: Map::empty(), mname: Seq::empty(), adopt: false, mstate: 0, nman: 0 }
     }
     /// the graph of the current Work may be used: it was built from the latest load and no command ran since
     pub open spec fn usable(h: PS) -> bool { h.has_work && !h.stale && !h.failed }
@@ -49,7 +50,9 @@ pub mod vxp {
             old(h)@.loaded == 0 || (old(h)@.loaded == 1 && old(h)@.stale && old(h)@.ran_ok && old(h)@.mstate == 4 && build_filename@ == old(h)@.mname),
         ensures match r {
             Ok(s) => final(h)@ == (PS { loaded: old(h)@.loaded + 1, has_work: false, stale: false, ran_ok: false, valid: s.default@.to_set(), wanted: Set::empty(),
-                        want_all: false, all_excl: None, defaults: s.default@, resolved: Map::empty(), mname: build_filename@, ..old(h)@ }),
+                        want_all: false, all_excl: None, defaults: s.default@, resolved: Map::empty(), mname: build_filename@, nman: s.manifest_files as nat, ..old(h)@ })
+                     // proved in unit load: the manifest itself and every `default` target are manifest files
+                     && s.manifest_files >= 1 && (forall|k: int| 0 <= k < s.default@.len() ==> crate::vx_keys::ix(#[trigger] s.default@[k]) < s.manifest_files),
             Err(_) => final(h)@ == old(h)@ }
     { unimplemented!() }
 
@@ -67,13 +70,15 @@ pub mod vxp {
     pub fn lookup(h: &mut Ghost<PS>, work: &Work, name: &str) -> (r: Option<FileId>)
         requires usable(old(h)@),
         ensures final(h)@ == (PS {
-                valid: (match r { Some(t) => old(h)@.valid.insert(t), None => old(h)@.valid }),
-                resolved: old(h)@.resolved.insert(name@, r),
+                // C18: a name that resolves to a file only the build log knows (id >= nman) counts as unknown
+                valid: (match r { Some(t) => if crate::vx_keys::ix(t) < old(h)@.nman { old(h)@.valid.insert(t) } else { old(h)@.valid }, None => old(h)@.valid }),
+                resolved: old(h)@.resolved.insert(name@, if r is Some && crate::vx_keys::ix(r.unwrap()) < old(h)@.nman { r } else { None }),
                 persist: (if name@ == old(h)@.mname && r is Some { old(h)@.persist.insert(r.unwrap()) } else { old(h)@.persist }),
                 mstate: (if name@ == old(h)@.mname && old(h)@.mstate == 0 { if r is Some { 2int } else { 1int } } else { old(h)@.mstate }),
                 ..old(h)@ }),
             // load::read interns the manifest first: in every generation its id is the same
             name@ == old(h)@.mname && r is Some && old(h)@.mstate != 0 ==> old(h)@.persist.contains(r.unwrap()),
+            name@ == old(h)@.mname && r is Some ==> crate::vx_keys::ix(r.unwrap()) == 0,
             // a lookup is a function of the name within one generation
             old(h)@.resolved.contains_key(name@) ==> r == old(h)@.resolved[name@],
     { unimplemented!() }
@@ -83,6 +88,8 @@ pub mod vxp {
     pub fn want_file(h: &mut Ghost<PS>, work: &mut Work, id: FileId) -> (r: crate::anyhow::Result<()>)
         requires usable(old(h)@), known(old(h)@, id),
             old(h)@.mstate == 1 || old(h)@.mstate == 4 || (old(h)@.mstate == 2 && old(h)@.persist.contains(id)),
+            // C18: "A command-line name that occurs nowhere in the (reloaded) manifest is rejected": only files the manifest names are wanted
+            crate::vx_keys::ix(id) < old(h)@.nman,
         ensures final(work).tasks_run == old(work).tasks_run,
             match r {
                 Ok(_) => final(h)@ == (PS { wanted: old(h)@.wanted.insert(id), ran_ok: false, mstate: (if old(h)@.mstate == 2 { 3int } else { old(h)@.mstate }), ..old(h)@ }),
